@@ -74,6 +74,9 @@ AcceptVerdicts(b, pre, res, ctx, what) ==
         THEN {V("C13", "accepted a spend of a coin locked by a stake", "KF-legacy-stake-lock-window")} ELSE {})
   \cup (IF ok /\ ~c.stakeshape THEN {V("C13", "accepted a stake transaction with undecodable data or a non-SYM first output", "")} ELSE {})
   \cup (IF ok /\ ~c.faucet THEN {V("C19", "accepted a faucet on mainnet or a duplicate faucet", "")} ELSE {})
+  \* history-level: the very faucet was accepted at an ancestor of this state (a fact of the recorded history, whatever the state's markers say)
+  \cup (IF ok /\ \E i \in DOMAIN b : b[i].kind = KIND_FAUCET /\ b[i].seenFaucet /\ ~Grandfathered(b[i])
+        THEN {V("C19", "a faucet transaction was accepted a second time in the same history", "")} ELSE {})
   \cup (IF ok /\ c.resolvable /\ c.wellformed /\ ~c.mint THEN {V("C18", "accepted an ERG mint the rules forbid (proof, age, seed header or reward bound)", "")} ELSE {})
   \cup (IF res = "err" /\ acc
         THEN {V("C04", "rejected although every clause of the specification holds (covenants approve, fees paid, balanced)", "")}
